@@ -13,7 +13,7 @@ CONSTANTS NAtoms, Slice, NSlices
 
 Atoms == { <<97>>, <<98>>, <<63>>, <<42>>, <<91,97,93>>, <<91,94,97,93>>, <<91,97,98,93>>, <<91,97,45,98,93>>, <<91,94,97,45,98,93>>,
            <<92,97>>, <<92,42>>, <<91,92,93,93>>, <<45>>, <<93>>, <<91,98,93>>, <<91,94,98,93>> }
-SubjAlpha == {97, 98, 45, 93}
+SubjAlpha == {97, 98, 45, 93, 92}
 Subjects == SetToSeq(UNION {[1..n -> SubjAlpha] : n \in 0..3})
 Cat(t) == Flat(t)
 Patterns == UNION {{Cat(t) : t \in [1..n -> Atoms]} : n \in 2..NAtoms}
